@@ -17,6 +17,10 @@ def setup():
         mod = importlib.import_module("harness." + p.lower())
         if hasattr(mod, "pre_build"):
             mod.pre_build()
+        if hasattr(mod, "translated_tie"):
+            st, tgt = mod.translated_tie()
+            if all(v == "translated" for v in st.values()):
+                targets.append(tgt)
     for p in props:
         targets += ["theories/%s/Corr.vo" % p, "theories/Props/%s.vo" % p]
     from . import driver
